@@ -74,3 +74,23 @@ func GetCloneCallFunc(ctx context.Context) (CallFunc, bool) {
 	}
 	return nil, false
 }
+
+////////////////////////////////////////////////////////////////////////////////
+
+const builtinDepthKey = contextKey("risor:builtin-depth")
+
+// MaxBuiltinCallDepth bounds how deeply builtins may call builtins directly
+// (without a VM frame in between, so the VM's frame limit does not apply).
+const MaxBuiltinCallDepth = 1024
+
+// callBuiltin calls a builtin on behalf of another builtin (list.map, each,
+// filter). Such calls nest on the Go stack only, so their depth is tracked in
+// the context and limited: a list that holds its own bound method would
+// otherwise recurse until the Go runtime kills the process.
+func callBuiltin(ctx context.Context, b *Builtin, args ...Object) Object {
+	depth, _ := ctx.Value(builtinDepthKey).(int)
+	if depth >= MaxBuiltinCallDepth {
+		return EvalErrorf("eval error: maximum builtin call depth exceeded (%d)", MaxBuiltinCallDepth)
+	}
+	return b.fn(context.WithValue(ctx, builtinDepthKey, depth+1), args...)
+}
